@@ -29,6 +29,7 @@ type Script struct {
 	Ret       int                 `json:"ret"`
 	Err       string              `json:"err,omitempty"`
 	Panic     string              `json:"panic,omitempty"` // "", "before", "after"
+	PanicWith string              `json:"panic_with,omitempty"` // "" (a string), "error", "runtime", "abort" (http.ErrAbortHandler)
 	EchoBody  bool                `json:"echo_body,omitempty"`
 	PauseMs   int                 `json:"pause_ms,omitempty"` // sleep after every chunk (keeps the handler in flight)
 }
@@ -147,7 +148,7 @@ func (h handler) ServeHTTP(w http.ResponseWriter, r *http.Request) (int, error) 
 	mu.Unlock()
 
 	if s.Panic == "before" {
-		panic("zz_probe: scripted panic before writing")
+		panicWith(s.PanicWith, "zz_probe: scripted panic before writing")
 	}
 	if !s.NoWrite {
 		for k, vv := range s.Header {
@@ -174,10 +175,24 @@ func (h handler) ServeHTTP(w http.ResponseWriter, r *http.Request) (int, error) 
 		}
 	}
 	if s.Panic == "after" {
-		panic("zz_probe: scripted panic after writing")
+		panicWith(s.PanicWith, "zz_probe: scripted panic after writing")
 	}
 	if s.Err != "" {
 		return s.Ret, errors.New(s.Err)
 	}
 	return s.Ret, nil
+}
+
+// panicWith panics with a value of the requested kind.
+func panicWith(kind, msg string) {
+	switch kind {
+	case "error":
+		panic(errors.New(msg))
+	case "runtime":
+		var m map[string]int
+		m[msg] = 1 // assignment to entry in nil map: a runtime.Error
+	case "abort":
+		panic(http.ErrAbortHandler)
+	}
+	panic(msg)
 }
